@@ -61,14 +61,14 @@ func (node *tagIncludeNode) Execute(ctx *ExecutionContext, writer TemplateWriter
 			}
 			return err2.(*Error)
 		}
-		err2 = includedTpl.executeWriterNested(includeCtx, writer, ctx.depth+1)
+		err2 = includedTpl.executeWriterNested(includeCtx, writer, ctx.depth+1, ctx)
 		if err2 != nil {
 			return node.executionError(ctx, err2)
 		}
 		return nil
 	}
 	// Template is already parsed with static filename
-	err := node.tpl.executeWriterNested(includeCtx, writer, ctx.depth+1)
+	err := node.tpl.executeWriterNested(includeCtx, writer, ctx.depth+1, ctx)
 	if err != nil {
 		return node.executionError(ctx, err)
 	}
